@@ -196,6 +196,10 @@ UNITS += [foreign(u_, "c19") for u_ in _c19._update_std_units() if "IndividualGi
 # section (contract of C13 on that loop, verified in C13's context)
 from contracts import c13 as _c13
 UNITS += [foreign(_c13.ScipyPerIndividualClones(), "c13")]
+# ... and the draws handed to those estimators are every recorded draw, individual by individual (hand-off between the sampling
+# loop and the estimator, verified in C17's context): a cohort-wide filter of the kept draws fails it
+from contracts import c17 as _c17
+UNITS += [foreign(_c17.EstimatorHandOff(), "c17")]
 CALLEES = [ShuffledIndices()]
 engine_setup = T.engine_setup
 ASSUMPTIONS = [
